@@ -6,7 +6,9 @@ import SpecterModel.C24.Gen
 Theorems about `openDb Gen.facts` (the model of `sqlite3.New` = `migrate` + `prepareStatements`,
 instantiated with the facts regenerated from the source on every run) over **every** database:
 any `user_version : Int` (SQLite's is a signed 32-bit value, so negative ones exist too), any of the
-2^5 present/absent combinations of the v1 objects, any rows of any type.
+2^5 present/absent combinations of the v1 objects, any rows of any type, and any set of v1 names
+occupied by a foreign object of the other kind (`clash`) — the situation in which a statement in the
+middle of the migration script fails after earlier statements have already run.
 -/
 namespace Specter.C24
 open Gen
@@ -31,23 +33,24 @@ theorem migrate_newer (db : Db ρ) (h : 1 < db.uv) : migrate facts db = (.refuse
 
 /-- the migration loop when the local `uv` is below every migration version (here: `uv < 1`) -/
 theorem run_below (uv : Int) (h : uv < 1) (db : Db ρ) :
-    runMigrations uv facts.migrations db = runMigrations 0 facts.migrations db := by
+    runMigrations facts uv facts.migrations db = runMigrations facts 0 facts.migrations db := by
   have h4 : ¬ (1:Int) ≤ uv := by omega
   simp [facts, runMigrations, h4]
 
 theorem migrate_zero (db : Db ρ) (h : db.uv = 0) : migrate facts db =
     if looksLikeV1 facts db then (.ok, { db with uv := 1 })
-    else if hasAnyV1 facts db then (.refuse, db) else runMigrations 0 facts.migrations db := by
+    else if hasAnyV1 facts db then (.refuse, db) else runMigrations facts 0 facts.migrations db := by
   unfold migrate
   rw [latest_facts, if_neg (by omega), if_neg (by omega), if_pos h]
   split
   · simp [facts, runMigrations]
   · rfl
-theorem migrate_neg (db : Db ρ) (h : db.uv < 0) : migrate facts db = runMigrations 0 facts.migrations db := by
+theorem migrate_neg (db : Db ρ) (h : db.uv < 0) : migrate facts db = runMigrations facts 0 facts.migrations db := by
   unfold migrate
   rw [latest_facts, if_neg (by omega), if_neg (by omega), if_neg (by omega)]
   exact run_below _ (by omega) _
 
+set_option hygiene false in
 macro "c24_split" db:ident : tactic => `(tactic| (
   rcases hk : Db.tab $db .keyTrackers with _ | rk <;>
   rcases hs : Db.tab $db .simpleEntries with _ | rs <;>
@@ -56,15 +59,161 @@ macro "c24_split" db:ident : tactic => `(tactic| (
   rcases hx : Db.tab $db .idxHash with _ | rx))
 
 macro "c24_simp" : tactic => `(tactic|
-  simp [*, openDb, prepare, runMigrations, applyMigration, createAll, create, looksLikeV1, hasAnyV1,
+  simp [*, openDb, prepare, runMigrations, applyMigration, execScript, create, looksLikeV1, hasAnyV1,
     present, upd, facts, tablesPresent, complete, rowsKept, Obj.tables, Obj.all])
 
+/-! ### the migration script, statement by statement (any script, any database) -/
+
+theorem present_of_rowsKept {db db' : Db ρ} (h : rowsKept db db') {o : Obj} (hp : present db o = true) :
+    present db' o = true := by
+  unfold present at *
+  rcases ho : db.tab o with _ | rows
+  · simp [ho] at hp
+  · simp [h o rows ho]
+
+/-- a `CREATE` that succeeds keeps version, foreign objects and every existing row, and the name exists afterwards -/
+theorem create_spec {db db' : Db ρ} {c : Obj × Bool} (h : create db c = some db') :
+    db'.uv = db.uv ∧ db'.clash = db.clash ∧ rowsKept db db' ∧ present db' c.1 = true := by
+  unfold create at h
+  by_cases hp : present db c.1 = true
+  · rw [if_pos hp] at h
+    by_cases hc : c.2 = true
+    · rw [if_pos hc] at h; cases h; exact ⟨rfl, rfl, fun _ _ h => h, hp⟩
+    · rw [if_neg hc] at h; cases h
+  · rw [if_neg hp] at h
+    by_cases hc : db.clash c.1 = true
+    · rw [if_pos hc] at h; cases h
+    · rw [if_neg hc] at h; cases h
+      refine ⟨rfl, rfl, ?_, by simp [present, upd]⟩
+      intro o rows ho
+      have hne : o ≠ c.1 := by
+        intro e; subst e; exact hp (by simp [present, ho])
+      simp [upd, hne, ho]
+
+/-- a script that ran to its end: version and foreign objects untouched, every existing row kept,
+every object the script names exists -/
+theorem execScript_ok : ∀ (cs : List (Obj × Bool)) (db db' : Db ρ), execScript cs db = (true, db') →
+    db'.uv = db.uv ∧ db'.clash = db.clash ∧ rowsKept db db' ∧ ∀ c ∈ cs, present db' c.1 = true
+  | [], db, db', h => by
+    simp only [execScript, Prod.mk.injEq, true_and] at h
+    subst h; exact ⟨rfl, rfl, fun _ _ h => h, by simp⟩
+  | c :: cs, db, db', h => by
+    unfold execScript at h
+    rcases hc : create db c with _ | db1
+    · simp [hc] at h
+    · simp only [hc] at h
+      obtain ⟨a1, b1, c1, d1⟩ := create_spec hc
+      obtain ⟨a2, b2, c2, d2⟩ := execScript_ok cs db1 db' h
+      refine ⟨a2.trans a1, b2.trans b1, fun o r ho => c2 o r (c1 o r ho), ?_⟩
+      intro c' hc'
+      rcases List.mem_cons.mp hc' with e | h'
+      · subst e; exact present_of_rowsKept c2 d1
+      · exact d2 c' h'
+
+/-- when a script of `IF NOT EXISTS` statements runs to its end: exactly when no name it has to
+create is occupied by a foreign object of the other kind -/
+theorem execScript_ok_iff : ∀ (cs : List (Obj × Bool)) (_ : ∀ c ∈ cs, c.2 = true) (db : Db ρ),
+    (execScript cs db).1 = true ↔ ∀ c ∈ cs, present db c.1 = true ∨ db.clash c.1 = false
+  | [], _, db => by simp [execScript]
+  | c :: cs, hall, db => by
+    have hc2 : c.2 = true := hall c (by simp)
+    have hall' : ∀ c' ∈ cs, c'.2 = true := fun c' h => hall c' (by simp [h])
+    unfold execScript
+    by_cases hp : present db c.1 = true
+    · have : create db c = some db := by simp [create, hp, hc2]
+      simp only [this, List.mem_cons, forall_eq_or_imp, hp, true_or, true_and]
+      exact execScript_ok_iff cs hall' db
+    · by_cases hcl : db.clash c.1 = true
+      · have : create db c = none := by simp [create, hp, hcl]
+        simp [this, hp, hcl]
+      · have hcl' : db.clash c.1 = false := by simpa using hcl
+        have hcr : create db c = some { db with tab := upd db.tab c.1 (some []) } := by simp [create, hp, hcl]
+        simp only [hcr, List.mem_cons, forall_eq_or_imp, hcl', or_true, true_and]
+        rw [execScript_ok_iff cs hall' _]
+        constructor
+        · intro h c' hc'
+          by_cases e : c'.1 = c.1
+          · right; rw [e]; exact hcl'
+          · rcases h c' hc' with h1 | h1
+            · left; simpa [present, upd, e] using h1
+            · right; exact h1
+        · intro h c' hc'
+          rcases h c' hc' with h1 | h1
+          · left
+            by_cases e : c'.1 = c.1
+            · simp [present, upd, e]
+            · simpa [present, upd, e] using h1
+          · right; exact h1
+
+/-! ### the migration script of this release (from the regenerated facts) -/
+
+/-- the `CREATE` statements of the (single) embedded migration -/
+def script : List (Obj × Bool) := match facts.migrations with
+  | [m] => m.creates
+  | _ => []
+
+theorem mem_all (o : Obj) : o ∈ Obj.all := by cases o <;> simp [Obj.all]
+theorem script_if_not_exists : ∀ c ∈ script, c.2 = true := by decide
+theorem script_covers : ∀ o ∈ Obj.all, ∃ c ∈ script, c.1 = o := by decide
+theorem transactional : facts.txMigration = true := by decide
+
+/-- the migration loop started below every migration version: the script runs inside
+`applyMigration`'s transaction; on an error nothing of it stays -/
+theorem run_zero (db : Db ρ) : runMigrations facts 0 facts.migrations db =
+    match execScript script db with
+    | (true, db') => (.ok, { db' with uv := 1 })
+    | (false, _) => (.refuse, db) := by
+  have hmig : facts.migrations = [⟨1, script⟩] := rfl
+  rw [hmig]
+  unfold runMigrations applyMigration
+  rcases execScript script db with ⟨_ | _, db'⟩ <;> simp [runMigrations, transactional]
+
+/-- `New` when `migrate` goes straight to the migration loop (fresh file, or negative version) -/
+theorem open_via_script (db : Db ρ) (hm : migrate facts db = runMigrations facts 0 facts.migrations db) :
+    (∃ db', execScript script db = (true, db') ∧ openDb facts db = (.ok, { db' with uv := 1 })) ∨
+    ((execScript script db).1 = false ∧ openDb facts db = (.refuse, db)) := by
+  rcases h : execScript script db with ⟨_ | _, db'⟩
+  · right
+    refine ⟨rfl, ?_⟩
+    unfold openDb; rw [hm, run_zero, h]
+  · left
+    refine ⟨db', rfl, ?_⟩
+    obtain ⟨_, _, _, hall⟩ := execScript_ok _ _ _ h
+    have hprep : prepare facts { db' with uv := 1 } = true := by
+      unfold prepare
+      rw [List.all_eq_true]
+      intro o _
+      obtain ⟨c, hc, e⟩ := script_covers o (by cases o <;> simp [Obj.all])
+      have := hall c hc
+      rw [e] at this
+      simpa [present] using this
+    unfold openDb; rw [hm, run_zero, h]
+    simp only [hprep, if_true]
+
 /-- The decision table: `New` succeeds exactly for `user_version = current` with the four tables,
-`user_version = 0` with all five objects (legacy) or none of them (fresh), and negative
-`user_version` (the migration is applied with IF NOT EXISTS on whatever is there). -/
+`user_version = 0` with all five objects (legacy) or none of them and none of the five names occupied
+by a foreign object of the other kind (fresh), and negative `user_version` when no name that still
+has to be created is so occupied (the migration is applied with IF NOT EXISTS on whatever is there). -/
 theorem open_outcome_table (db : Db ρ) :
     (openDb facts db).1 = .ok ↔
-      (db.uv = 1 ∧ tablesPresent db) ∨ (db.uv = 0 ∧ (complete db ∨ ∀ o ∈ Obj.all, present db o = false)) ∨ db.uv < 0 := by
+      (db.uv = 1 ∧ tablesPresent db) ∨
+      (db.uv = 0 ∧ (complete db ∨ ∀ o ∈ Obj.all, present db o = false ∧ db.clash o = false)) ∨
+      (db.uv < 0 ∧ ∀ o ∈ Obj.all, present db o = true ∨ db.clash o = false) := by
+  have hscript : (execScript script db).1 = true ↔ ∀ o ∈ Obj.all, present db o = true ∨ db.clash o = false := by
+    rw [execScript_ok_iff script script_if_not_exists db]
+    constructor
+    · intro h o ho
+      obtain ⟨c, hc, e⟩ := script_covers o ho
+      rw [← e]; exact h c hc
+    · intro h c _
+      exact h c.1 (mem_all c.1)
+  have hvia : migrate facts db = runMigrations facts 0 facts.migrations db →
+      ((openDb facts db).1 = .ok ↔ ∀ o ∈ Obj.all, present db o = true ∨ db.clash o = false) := by
+    intro hm
+    rw [← hscript]
+    rcases open_via_script db hm with ⟨db', h1, h2⟩ | ⟨h1, h2⟩
+    · simp [h1, h2]
+    · simp [h1, h2]
   by_cases h1 : db.uv = 1
   · have hm := migrate_current db h1
     unfold openDb; rw [hm]
@@ -77,47 +226,134 @@ theorem open_outcome_table (db : Db ρ) :
       c24_simp
     · by_cases h0 : db.uv = 0
       · have hm := migrate_zero db h0
-        unfold openDb; rw [hm]
-        c24_split db <;> c24_simp
+        have hn : ¬ db.uv < 0 := by omega
+        by_cases hf : ∀ o ∈ Obj.all, present db o = false
+        · have hm' : migrate facts db = runMigrations facts 0 facts.migrations db := by
+            rw [hm]
+            have : looksLikeV1 facts db = false := by simp [looksLikeV1, facts, hf .keyTrackers (by simp [Obj.all])]
+            have : hasAnyV1 facts db = false := by
+              simp only [hasAnyV1, List.any_eq_false]
+              intro o ho
+              simp [hf o (by cases o <;> simp [Obj.all])]
+            simp [*]
+          rw [hvia hm']
+          have hnc : ¬ complete db := by
+            intro hc
+            have := hc .keyTrackers (by simp [Obj.all])
+            rw [hf .keyTrackers (by simp [Obj.all])] at this
+            cases this
+          constructor
+          · intro h
+            refine Or.inr (Or.inl ⟨h0, Or.inr fun o ho => ⟨hf o ho, ?_⟩⟩)
+            rcases h o ho with h' | h'
+            · rw [hf o ho] at h'; cases h'
+            · exact h'
+          · rintro (⟨e, _⟩ | ⟨_, hc | h⟩ | ⟨hlt, _⟩)
+            · exact absurd e h1
+            · exact absurd hc hnc
+            · exact fun o ho => Or.inr (h o ho).2
+            · exact absurd hlt hn
+        · have hf' : ¬ (db.tab .keyTrackers = none ∧ db.tab .simpleEntries = none ∧ db.tab .prefixEntries = none ∧
+              db.tab .leaseEntries = none ∧ db.tab .idxHash = none) := by
+            intro ⟨a, b, c, d, e⟩
+            apply hf
+            intro o _
+            cases o <;> simp [present, *]
+          unfold openDb; rw [hm]
+          c24_split db <;> first | (c24_simp; done) | exact absurd ⟨hk, hs, hp, hl, hx⟩ hf'
       · have hn : db.uv < 0 := by omega
-        have hm := migrate_neg db hn
-        unfold openDb; rw [hm]
-        c24_split db <;> c24_simp
+        rw [hvia (migrate_neg db hn)]
+        simp [h1, h0, hn]
 
 /-- what the property demands of the result `r` of opening `db` -/
 def Safe (db : Db ρ) (r : Outcome × Db ρ) : Prop :=
   (r.1 = .ok → r.2.uv = facts.schemaVersion ∧ tablesPresent r.2 ∧ rowsKept db r.2 ∧ (complete r.2 ∨ db.uv = latest facts)
-      ∧ db.uv ≤ r.2.uv) ∧
+      ∧ db.uv ≤ r.2.uv ∧ r.2.clash = db.clash) ∧
   (r.1 = .refuse → r.2 = db)
 
-/-- C24 over every database (any `user_version : Int`, any of the 2^5 object subsets, any rows): a
-successful open ends at the current version, all tables present, every pre-existing row in place, and
-the schema complete unless the file was already stamped current, and the version stamp never lowered
-(so a file from a newer version is never opened); a refused open changes nothing. -/
+/-- `Safe` on the path where the migration script is run (fresh file or negative version): the
+script either runs to its end inside the transaction, or the transaction is rolled back. -/
+theorem safe_via_script (db : Db ρ) (hm : migrate facts db = runMigrations facts 0 facts.migrations db)
+    (hle : db.uv ≤ 1) : Safe db (openDb facts db) := by
+  rcases open_via_script db hm with ⟨db', h1, h2⟩ | ⟨_, h2⟩
+  · obtain ⟨_, hcl, hrows, hall⟩ := execScript_ok _ _ _ h1
+    have hcomp : complete ({ db' with uv := 1 } : Db ρ) := by
+      intro o ho
+      obtain ⟨c, hc, e⟩ := script_covers o ho
+      have := hall c hc
+      rw [e] at this
+      simpa [present] using this
+    rw [h2]
+    unfold Safe
+    refine ⟨fun _ => ⟨rfl, ?_, hrows, Or.inl hcomp, hle, hcl⟩, fun h => by simp at h⟩
+    intro o ho
+    exact hcomp o (by cases o <;> simp [Obj.tables] at ho <;> simp [Obj.all])
+  · rw [h2]
+    exact ⟨fun h => by simp at h, fun _ => rfl⟩
+
+/-- C24 over every database (any `user_version : Int`, any of the 2^5 object subsets, any rows, any
+set of v1 names occupied by foreign objects of the other kind, i.e. also when the migration script
+fails part-way): a successful open ends at the current version, all tables present, every
+pre-existing row in place, and the schema complete unless the file was already stamped current, and
+the version stamp never lowered (so a file from a newer version is never opened); a refused open
+changes nothing. -/
 theorem open_safe (db : Db ρ) : Safe db (openDb facts db) := by
-  unfold Safe; rw [latest_facts]
   by_cases h1 : db.uv = 1
   · have hm := migrate_current db h1
+    unfold Safe; rw [latest_facts]
     unfold openDb; rw [hm]
     c24_split db <;> c24_simp
   · by_cases h2 : db.uv > 1
     · have hm := migrate_newer db h2
+      unfold Safe; rw [latest_facts]
       unfold openDb; rw [hm]
       c24_simp
     · by_cases h0 : db.uv = 0
       · have hm := migrate_zero db h0
-        unfold openDb; rw [hm]
-        c24_split db <;> c24_simp <;> (try (intro o; cases o <;> simp [*]))
+        by_cases hf : looksLikeV1 facts db = false ∧ hasAnyV1 facts db = false
+        · exact safe_via_script db (by rw [hm]; simp [hf.1, hf.2]) (by omega)
+        · have hf' : ¬ (db.tab .keyTrackers = none ∧ db.tab .simpleEntries = none ∧ db.tab .prefixEntries = none ∧
+              db.tab .leaseEntries = none ∧ db.tab .idxHash = none) := by
+            intro ⟨a, b, c, d, e⟩
+            apply hf
+            simp [looksLikeV1, hasAnyV1, facts, present, *]
+          unfold Safe; rw [latest_facts]
+          unfold openDb; rw [hm]
+          c24_split db <;> first
+            | (c24_simp <;> (try (intro o; cases o <;> simp [*])); done)
+            | exact absurd ⟨hk, hs, hp, hl, hx⟩ hf'
       · have hn : db.uv < 0 := by omega
-        have hm := migrate_neg db hn
-        unfold openDb; rw [hm]
-        c24_split db <;> c24_simp <;> (try refine ⟨?_, by omega⟩) <;> (try omega) <;>
-          (try (intro o; cases o <;> simp [*]))
+        exact safe_via_script db (migrate_neg db hn) (by omega)
 
 /-- A refused open leaves the database exactly as it was (version, schema, rows). In particular the
 legacy stamp (`user_version := 1`, written outside a transaction) is never followed by a refusal. -/
 theorem open_refuse_unchanged (db : Db ρ) (h : (openDb facts db).1 = .refuse) : (openDb facts db).2 = db :=
   (open_safe db).2 h
+
+/-- A migration script that breaks off part-way leaves nothing behind.  Whenever `migrate` runs the
+script (negative version, or version 0 with no v1 object) and some name the script still has to
+create is occupied by a foreign object of the other kind — so the statement creating it fails, after
+the statements before it have run — the open is refused and the database is exactly what it was: no
+table or index of the partial script survives, `user_version` is not stamped.  (With the statement
+order of this release, `lease_entries` occupied means four `CREATE`s have succeeded before the error.) -/
+theorem open_interrupted_migration_unchanged (db : Db ρ)
+    (hrun : db.uv < 0 ∨ (db.uv = 0 ∧ ∀ o ∈ Obj.all, present db o = false))
+    (o : Obj) (ha : present db o = false) (hc : db.clash o = true) : openDb facts db = (.refuse, db) := by
+  have hnot : ¬ (openDb facts db).1 = .ok := by
+    rw [open_outcome_table]
+    rintro (⟨e, _⟩ | ⟨_, hcomp | h⟩ | ⟨_, h⟩)
+    · rcases hrun with h | ⟨h, _⟩ <;> omega
+    · have := hcomp o (mem_all o); rw [ha] at this; cases this
+    · have := (h o (mem_all o)).2; rw [hc] at this; cases this
+    · rcases h o (mem_all o) with h' | h'
+      · rw [ha] at h'; cases h'
+      · rw [hc] at h'; cases h'
+  have href : (openDb facts db).1 = .refuse := by
+    rcases h : (openDb facts db).1 with _ | _
+    · exact absurd h hnot
+    · rfl
+  have := open_refuse_unchanged db href
+  exact Prod.ext href this
 
 /-- A successful open ends at the current version with all four tables usable and every existing row
 still in place. -/
@@ -135,7 +371,7 @@ theorem open_newer_refused (db : Db ρ) (h : latest facts < db.uv) : openDb fact
 
 /-- A successful open never lowers `user_version`: the stamp only moves forward, by migrations. -/
 theorem open_never_downgrades (db : Db ρ) (h : (openDb facts db).1 = .ok) : db.uv ≤ (openDb facts db).2.uv :=
-  let ⟨_, _, _, _, e⟩ := (open_safe db).1 h; e
+  let ⟨_, _, _, _, e, _⟩ := (open_safe db).1 h; e
 
 /-- FULL statement (DESIGN `open_safe`): `ok → complete ∧ uv = current ∧ rows kept; refuse → unchanged`
 for every database.  It is FALSE of the code for exactly one family (`open_ok_incomplete_witness`): a
@@ -157,6 +393,19 @@ def staleIndexDb : Db Nat :=
 theorem open_ok_incomplete_witness :
     (openDb facts staleIndexDb).1 = .ok ∧ present (openDb facts staleIndexDb).2 .idxHash = false := by decide
 
+/-- a fresh file in which a foreign index is called `lease_entries` (the last statement of the script fails) -/
+def occupiedDb : Db Nat := { uv := 0, tab := fun _ => none, clash := fun o => o == .leaseEntries }
+
+/-- The transaction in `applyMigration` is what the property rests on: the very same opener with the
+script executed statement by statement on the handle (`txMigration := false`) refuses `occupiedDb`
+and leaves `key_trackers` (and more) behind in a file that had no v1 object. -/
+theorem rollback_needed_witness :
+    (openDb { facts with txMigration := false } occupiedDb).1 = .refuse ∧
+    present occupiedDb .keyTrackers = false ∧
+    present (openDb { facts with txMigration := false } occupiedDb).2 .keyTrackers = true ∧
+    (execScript script occupiedDb).1 = false ∧ present (execScript script occupiedDb).2 .prefixEntries = true := by
+  decide
+
 /-! ### non-vacuity: each branch of the table is inhabited -/
 def freshDb : Db Nat := { uv := 0, tab := fun _ => none }
 def legacyDb : Db Nat := { uv := 0, tab := fun o => match o with | .simpleEntries => some [1, 2, 3] | _ => some [] }
@@ -177,5 +426,18 @@ example : legacyDb.uv ≠ latest facts := by decide
 example : latest facts < newerFullDb.uv ∧ looksLikeV1 facts newerFullDb = true := by decide
 example : (openDb facts newerFullDb).1 = .refuse ∧ (openDb facts newerFullDb).2.uv = 2 := by decide
 example : (openDb facts legacyDb).1 = .ok ∧ legacyDb.uv < (openDb facts legacyDb).2.uv := by decide
+-- the interrupted migration: hypotheses of `open_interrupted_migration_unchanged` are satisfiable, and the
+-- refused file really has no v1 object afterwards although the script had created four before failing
+example : (occupiedDb.uv = 0 ∧ ∀ o ∈ Obj.all, present occupiedDb o = false) ∧
+    present occupiedDb .leaseEntries = false ∧ occupiedDb.clash .leaseEntries = true := by decide
+example : (openDb facts occupiedDb).1 = .refuse ∧
+    (Obj.all.all fun o => !present (openDb facts occupiedDb).2 o) = true ∧ (openDb facts occupiedDb).2.uv = 0 := by decide
+/-- negative version on top of existing rows, `idx_hash` taken by a foreign table -/
+def negOccupiedDb : Db Nat :=
+  { uv := -1, tab := fun o => match o with | .keyTrackers => some [1, 2] | _ => none, clash := fun o => o == .idxHash }
+example : (openDb facts negOccupiedDb).1 = .refuse ∧ (openDb facts negOccupiedDb).2.tab .keyTrackers = some [1, 2] ∧
+    present (openDb facts negOccupiedDb).2 .simpleEntries = false := by decide
+-- `execScript_ok_iff` both ways on concrete scripts
+example : (execScript script freshDb).1 = true ∧ (execScript script occupiedDb).1 = false := by decide
 
 end Specter.C24
